@@ -268,6 +268,20 @@ def varfont_overrides(ctx):
             m_["info"]["familyName"] = src_fam
         if vf_fam is not None:
             override["familyName"] = vf_fam
+        # the style name overridden so that the typographic names (IDs 16 / 17) come and go: masters styled 'M0' (not one of
+        # the four legacy styles: IDs 16 / 17 written) overridden to 'Regular' (IDs 16 / 17 equal 1 / 2: left out), and back
+        src_style, vf_style = [(None, None), ("M0", "Regular"), ("Regular", "Black"), ("M0", "Bold Italic")][(i // 4) % 4]
+        if src_style is not None:
+            masters[0]["info"]["styleName"] = src_style
+            override["styleName"] = vf_style
+        # vertical metrics: the sources have all three or none; the override sets all three
+        VH = ("openTypeVheaVertTypoAscender", "openTypeVheaVertTypoDescender", "openTypeVheaVertTypoLineGap")
+        src_vert, ov_vert = [(False, False), (True, True), (False, True), (True, False)][(i // 2) % 4]
+        if src_vert:
+            for m_ in masters:
+                m_["info"].update(dict(zip(VH, (500, -500, 1000))))
+        if ov_vert:
+            override.update(dict(zip(VH, (440, -560, 0))))
         # a SECOND variable font in the same document overrides one unrelated attribute only: every other field of it -- and of a
         # static font compiled from the default master afterwards -- shows the source's values, not the first font's overrides
         ds, fonts = dsgen.make_designspace(rng, masters, lib, instances=False, vf_info=[override, {"openTypeNameDesigner": "Second"}])
@@ -289,6 +303,30 @@ def varfont_overrides(ctx):
             stale = [r for r in recs if not r[3].startswith(vf_fam)]
             if stale or not recs:
                 ctx.spec_failure(dict(case, name_records=recs), "the variable font's family name is overridden to %r, but it carries the name records %r" % (vf_fam, stale or recs))
+        # names: the override is the variable font's info -- its legacy and typographic family / style names are those of a
+        # static font compiled from the default master carrying the same info
+        try:
+            import copy as _copy
+            m0 = _copy.deepcopy(masters[0]); m0["info"].update({k: v for k, v in override.items() if k in ("familyName", "styleName", "trademark")})
+            ref = (ufo2ft.compileTTF if "TTF" in fn else ufo2ft.compileOTF)(build_font(m0, lib))
+            want_n = {k: ref["name"].getDebugName(k) for k in (1, 2, 16, 17)}
+            got_n = {k: loaded[0]["name"].getDebugName(k) for k in (1, 2, 16, 17)}
+            win = sorted({(n.nameID, n.toUnicode()) for n in loaded[0]["name"].names if n.nameID in (1, 2, 16, 17)})
+            if got_n != want_n or len(win) != len([k for k in want_n if want_n[k] is not None]):
+                ctx.spec_failure(dict(case, name_records=win, static_font_with_the_same_info=want_n),
+                                 "the variable font's family / style records are %r; a static font with the same info (family %r, style %r) has %r" % (
+                                     win, m0["info"]["familyName"], m0["info"]["styleName"], want_n))
+        except Exception as e:
+            ctx.spec_failure(case, "reference compile raised %s: %s" % (type(e).__name__, e))
+        if src_vert:
+            vh = loaded[0]["vhea"] if "vhea" in loaded[0] else None
+            wantv = (440, -560, 0) if ov_vert else (500, -500, 1000)
+            gotv = None if vh is None else (vh.ascent, vh.descent, vh.lineGap)
+            if gotv != wantv:
+                ctx.spec_failure(dict(case, vhea=gotv), "vertical header of the variable font: (ascent, descent, lineGap) = %r; the %s say %r" % (
+                    gotv, "overrides" if ov_vert else "sources", wantv))
+        elif ov_vert:
+            ctx.klass("vf-info: vertical metrics overridden on a font without vertical tables (nothing to appear in)")
         for tt, ov, ovx, case in ((loaded[0], ov, ovx, case),
                                   (loaded[1], {}, {}, dict(case, judged="the second variable font of the document (overrides the designer only)")),
                                   (loaded[2], {}, {}, dict(case, judged="the default master compiled alone afterwards"))):
